@@ -61,7 +61,9 @@ theorem consumeLoop_sweep (id l : Nat) : ∀ (fuel : Nat) (reqs skipped : List D
     split at h
     · simp at h
     · rename_i s1 req1 st hf
-      have f1 : SweepFrame s s1 l := hl ▸ (forwardDeviceData_spec hc hf).1
+      have f1 : SweepFrame s (noteTurn s s1 req1) l :=
+        (hl ▸ (forwardDeviceData_spec hc hf).1 : SweepFrame s s1 l).trans
+          (SweepFrame.of_frame (noteTurn_frame s s1 req1) l)
       obtain ⟨c1, hc1, hl1, _⟩ := f1.get hc
       have hl1' : c1.link = l := hl1.trans hl
       cases st with
@@ -154,7 +156,11 @@ theorem consume_flushes_in_order {s s' : RState} {b : Bool} {id : Nat} {rq : Lis
   split at h
   · simp at h
   · rename_i s2 hloop
+    split at h
+    · simp at h
+    rename_i s3 hwake
     simp only [Except.ok.injEq, Prod.mk.injEq] at h; obtain ⟨rfl, rfl⟩ := h
+    have fw := wakeTurnMoved_frame hwake
     -- the state handed to `ack_device_data`
     generalize hs0 : ({ (setConn { s with readyqueue := rq } id
         { c with tracker := { c.tracker with requests := [] } }) with
@@ -166,7 +172,7 @@ theorem consume_flushes_in_order {s s' : RState} {b : Bool} {id : Nat} {rq : Lis
         (c' := { c with tracker := { c.tracker with requests := [] } }) rfl) rfl rfl) rfl rfl
     obtain ⟨c0, hc0', ha0, hl0, hk0⟩ := fr0.conns.get hc
     obtain ⟨e1, e2, ⟨c1, g1, a1, l1, k1, _⟩, e4⟩ := ackDeviceData_spec s0 id c0 hc0'
-    have sw := consumeLoop_sweep id c.link _ _ _ g1 (l1.trans hl0) hloop
+    have sw := (consumeLoop_sweep id c.link _ _ _ g1 (l1.trans hl0) hloop).trans (SweepFrame.of_frame fw c.link)
     obtain ⟨rest, hrest, hno⟩ := sw.link.own
     refine ⟨rfl, ⟨rest, ?_, hno⟩, ?_, ?_, ?_⟩
     · rw [hrest, ← hl0, e1, fr0.getLink, ha0]
